@@ -1,7 +1,12 @@
 """C05 - G1/G2 point arithmetic is the group law (partial claim: exceptional-case guards)."""
-from .. import guards
+from .. import guards, formulas
 
-EXPL = ('Partial claim. The addition/doubling formulas and curve membership are value-level and NOT decided. Decided '
+EXPL = ('(R-POLY) The general-case formulas ARE decided for all inputs at once by algebraic value numbering over the '
+        'polynomial ring in the operands\' Jacobian coordinates: Projective::multiply2 equals the tangent rule and both '
+        'Projective::add overloads (projective and mixed) equal the chord rule on the affine images (X/Z^2, Y/Z^3), as '
+        'cross-multiplied polynomial identities, for G1 (coordinates in Fq) and G2 (coordinates in the ring Fq2, whose '
+        'operations are proven under C04), with out distinct and out==a. Not decided: curve membership of results as a '
+        'statement about values, equality\'s cross-multiplication, wNAF/table logic. Exceptional cases: decided '
         '(R-GUARD/G4, G5): the exceptional cases the property lists hold only because of guards, and those guards are '
         'necessary: in both Projective::add overloads, for G1 and G2, the general formula is reachable only when neither '
         'operand is the identity and the points are not equal (two cross-multiplied equality tests), the three special '
@@ -17,3 +22,5 @@ def run(ctx):
     for cfg, prog in ctx.programs().items():
         guards.g4_projective_add(ctx, cfg, prog)
         guards.g5_conversions(ctx, cfg, prog)
+        m = formulas.rule_curve(ctx, cfg, prog)
+        ctx.floor('R-POLY curve formulas[%s]' % cfg, m, 12)
